@@ -702,6 +702,46 @@ example : ((run ⟨[{}], [.plain 0 none]⟩ [.set 0 ['x'] (some 1)]).cells.get 0
     ¬ NoHostWrite [.set 0 ['x'] (some 1)] := by
   refine ⟨by decide, fun h => h (.set 0 ['x'] (some 1)) (by simp) rfl⟩
 
+/-! ### the full statement and the part proved here -/
+
+/-- **The context clause at full strength**, for an evaluator given as `stmtOf : Expr → Stmt Res` (the
+    `Model/Eval.lean` evaluator after merge): *every* expression's evaluation is a function of the cells
+    reachable from its context and never writes through the context it was handed.  It is a statement about
+    the evaluator; what is proved in this file is everything that follows from it (`context_clause_partial`)
+    and, unconditionally, the part of `Statement.evaluate` that is not the evaluator (`only_dollar` with its
+    hypothesis on the step sequence, `frame`, `discipline_fresh`). -/
+def C09_full {Expr Res : Type} (stmtOf : Expr → Stmt Res) : Prop :=
+  ∀ e : Expr, (stmtOf e).Local ∧ (stmtOf e).Disciplined
+
+/-- **C09.context_clause_partial**: given the full clause for the evaluator, for every expression, store,
+    context (all of whose cells exist) and data: (1) one evaluation leaves every existing cell as
+    `context['$'] = v` alone leaves it, and (2) any pool of expressions evaluated in any order against the
+    shared context returns, evaluation by evaluation, what each returns alone on the initial store. -/
+theorem context_clause_partial {Expr Res : Type} (stmtOf : Expr → Stmt Res) (h : C09_full stmtOf)
+    (cs : Cells) (s : Shape) (hs : ∀ c ∈ cellsOf s, c < cs.length) :
+    (∀ (e : Expr) (v : Val) (c : Nat), c < cs.length →
+        (evalStmt cs s (stmtOf e) v).1.get c = (setData cs s dollar v).get c) ∧
+    (∀ pool : List (Expr × Val),
+        (runPool s cs (pool.map fun p => (stmtOf p.1, p.2))).2
+          = pool.map fun p => (evalStmt cs s (stmtOf p.1) p.2).2) := by
+  refine ⟨?_, ?_⟩
+  · intro e v c hc
+    obtain ⟨_, f2⟩ := context_frame (setData cs s dollar v) s ((stmtOf e).prog (setData cs s dollar v) s).1
+      ((h e).2 _ _)
+    simp only [setData_length] at f2
+    exact f2 c hc
+  · intro pool
+    have := reeval_pool cs s hs (pool.map fun p => (stmtOf p.1, p.2)) (by
+      intro p hp
+      simp only [List.mem_map] at hp
+      obtain ⟨q, _, rfl⟩ := hp
+      exact h q.1)
+    rw [this, List.map_map]
+    rfl
+
+/-- non-vacuity of `C09_full`: the one-expression evaluator `exStmt` satisfies it -/
+example : C09_full (fun (_ : Unit) => exStmt) := fun _ => ⟨exStmt_local, exStmt_disciplined⟩
+
 /-! ### instantiation with the evaluator model (`Model/Eval.lean`, built by C04 on another branch)
 
 TO CONNECT AFTER MERGE: define `stmtOf (e : Eval.Expr) : Stmt Eval.Result` whose `prog cs s` is the
